@@ -353,6 +353,17 @@ ARGS_LOOP:
 			token := iterator.Value()
 			tokenPassed := false
 
+			// With require order the token is taken as a whole: when any option in it is unknown,
+			// parsing stops here, before any part of the token is applied.
+			if currentProgramNode.requireOrder {
+				for _, p := range optPair {
+					if len(getAliasNameFromPartialEntry(currentProgramNode, p.Option)) == 0 {
+						storeRemainingAsText(iterator, currentProgramNode)
+						break ARGS_LOOP
+					}
+				}
+			}
+
 			// iterate over the possible cli args and try matching against expectations
 			for _, p := range optPair {
 				// handle full option match
